@@ -1166,9 +1166,10 @@ impl State {
                         xf: Xfn::Native(x), ..
                     } => Opcode::NativeCall(*x),
                 };
-                if self.ctx.mode == ContextMode::MetaEval {
-                    // whatever a meta block defines is purged when it closes,
-                    // so a name resolved inside one is bound for this execution only
+                if self.ctx.mode == ContextMode::MetaEval || !self.input.is_empty() {
+                    // whatever a meta block defines is purged when it closes, and a source that is
+                    // still being read (an immediate word is running) may yet be rejected and its
+                    // definitions dropped: a name resolved now is bound for this execution only
                     let unresolved = std::mem::replace(&mut self.code[ip], op);
                     let res = self.fetch_and_run();
                     self.code[ip] = unresolved;
